@@ -49,7 +49,49 @@ fn views(raw: &[u8], h: &v1::Header<'_>, which: &str) -> Verdict {
     Ok(())
 }
 
+/// The identities on the header's OWN reported text (whatever route accepted it, whatever the reference thinks of the
+/// input): PROXY, a space, protocol(), the separated address text and CRLF re-assemble to `header`, which is also what
+/// formatting prints.
+fn intrinsic(x: &[u8], h: &v1::Header<'_>, route: &str) -> Verdict {
+    let text: &str = h.header.as_ref();
+    let proto = h.protocol();
+    let a = h.addresses_str();
+    let fail = |exp: String, obs: String| Err(Fail::new(format!("reassembly-of-reported-text:{}", route), shape(x), "v1::Header::{protocol, addresses_str, to_string}", exp, obs));
+    let head = format!("PROXY {}", proto);
+    if !text.starts_with(&head) || !text.ends_with("\r\n") || text.len() < head.len() + 2 {
+        return fail(format!("header text = \"PROXY \" + {:?} + address text + CRLF", proto), format!("{:?}", esc(text.as_bytes())));
+    }
+    let between = &text[head.len()..text.len() - 2];
+    let want = between.strip_prefix(' ').unwrap_or(between);
+    if a != want || (!between.is_empty() && !between.starts_with(' ')) {
+        return fail(format!("addresses_str() == {:?} (what lies between the keyword and the CRLF, one space removed)", want), format!("{:?} for header text {:?}", a, esc(text.as_bytes())));
+    }
+    let printed = h.to_string();
+    if printed != text {
+        return fail(format!("to_string() == header text {:?}", esc(text.as_bytes())), format!("{:?}", esc(printed.as_bytes())));
+    }
+    Ok(())
+}
+
 pub fn judge(x: &Vec<u8>, st: &mut Stats) -> Verdict {
+    // every route's accepted header satisfies the identities on its own reported text
+    if let Ok(Ok(h)) = crate::engine::guard(|| imp::v1_bytes(x)).unwrap_or(Err("panic".into())) {
+        if let Ok(v) = crate::engine::guard(|| intrinsic(x, &h, "try_from(&[u8])")) {
+            v?;
+        }
+    }
+    if let Ok(sx) = std::str::from_utf8(x) {
+        if let Ok(Ok(h)) = imp::v1_str(sx) {
+            if let Ok(v) = crate::engine::guard(|| intrinsic(x, &h, "try_from(&str)")) {
+                v?;
+            }
+        }
+        if let Ok(Ok(h)) = imp::v1_fromstr_header(sx) {
+            if let Ok(v) = crate::engine::guard(|| intrinsic(x, &h, "str::parse::<Header>")) {
+                v?;
+            }
+        }
+    }
     let r = imp::v1_bytes(x);
     let h = match &r {
         Ok(Ok(h)) => h,
@@ -120,8 +162,10 @@ pub fn judge(x: &Vec<u8>, st: &mut Stats) -> Verdict {
 }
 
 fn gen_case(t: &mut Tape) -> Vec<u8> {
-    let mut x = match t.weighted(&[8, 2]) {
+    let mut x = match t.weighted(&[8, 2, 2]) {
         0 => gen::gen_valid_line(t, false),
+        // near-miss lines: only what some route accepts is judged, so these matter exactly when a route accepts too much
+        2 => gen::gen_v1_mutant(t).0,
         _ => {
             // UNKNOWN tails with runs of spaces
             let mut l = b"PROXY UNKNOWN".to_vec();
